@@ -20,6 +20,22 @@ class LQDomain(GroupDomain):
         GroupDomain.__init__(self, extra_leaf=(ENC1, ENC2, "Fq"), **kw)
         self.hash_calls = []
 
+    def contract_for(self, I, f, this, args):
+        if f.qname in ("Fr::hash_reduce", "Fq::hash_reduce") and this is not None and not isinstance(this, Leaf):
+            return self.hash_reduce
+        return GroupDomain.contract_for(self, I, f, this, args)
+
+    def hash_reduce(self, I, f, this, args):
+        """contract of Fp::hash_reduce (C10, BV unit): val' == (val mod 2^k) mod p with k the modulus' bit length, returns the discarded top bit.
+        In the Z_r-module reading: val' == val - 2^k * top (mod r), top in {0, 1} a fresh unknown -- exact, not an over-approximation"""
+        from poly import Poly
+        k = 255 if f.qname.startswith("Fr") else 381
+        leaf = this.f["val"]
+        v = self.sval(leaf)
+        top = self.fresh_scalar("topbit", 0, 2)
+        leaf.val = Poly.const(0) + v - top * (1 << k)
+        return top
+
     def method(self, I, f, this, args):
         if this.type in (ENC1, ENC2):
             if f.name == "encode":
